@@ -159,7 +159,7 @@ def run(tier, seed):
         else:
             outcome["shape"] += 1
             m = c.get("meta")
-            if not m or fm["form"] == "G":
+            if not m or fm["form"] == "G" or m["v"]["t"] != "num":
                 chk.outside += 1
                 continue
             g_total += 1
@@ -171,6 +171,11 @@ def run(tier, seed):
                              f"`{fu.short(prog['src'], 200)}` gives {fu.short(got)}: {why} (C reference: "
                              f"{fu.short(fu.rope_str(exp['r']))})", dict(prog, expected="shape: " + why))
     chk.traces_validated = len(progs)
+    vc = {}
+    for sig_, what_, _p in chk.violations:
+        kk = f"{sig_['class']}|{sig_['universe']}|%{sig_['conv']}"
+        vc.setdefault(kk, [0, what_[:240]])[0] += 1
+    chk.extra["disagreement_classes"] = {k_: {"count": v_[0], "example": v_[1]} for k_, v_ in sorted(vc.items())}
     chk.exhaustive = exhaustive
     chk.extra["outcome_classes"] = outcome
     chk.extra["evaluations_by_conversion"] = dict(sorted(by_conv.items()))
